@@ -15,6 +15,8 @@ TEXT = {
                  'own-watcher, non-batchable alone, size <= MaxBatchSize, second batch only after a full one, order kept inside batches, FIFO per class without slot limit. '
                  'The model is tied to the code by running the real flush cycle (both generations, virtual time) on exhaustive small and random buffers and comparing batch events exactly.',
          'ref': 'DESIGN.md 6 C05', 'note': _note, 'technique': 'Lean 4 proof (induction over the buffer) + differential correspondence check of the cycle model'},
+ 'C15': {'text': 'Lean theorems over the buffer model (list + cursor) and the blocked-caller machine: size <= capacity in every reachable state, enqueue adds only with room and error mode leaves the buffer untouched, remove unlinks exactly the cursor record (head/middle/tail), cursor always valid, no lost wake-up, shutdown releases every waiter with the shutdown error (and a proof that without the wake-up a waiter is stuck forever). Tied to the real v2 buffer by exhaustive short and random long action sequences under a virtual clock. PARTIAL: the linked-list representation (L0) is covered by the differential check only; v1 (channel) through Batcher histories.',
+         'ref': 'DESIGN.md 6 C15', 'note': _note, 'technique': 'Lean 4 proof (invariants of a labelled machine) + exhaustive/random differential check of the buffer'},
  'C14': {'text': 'Lean characterisation theorems (iff, in source order) of the four admission errors and of acceptance, over all inputs; tied to the code by an exhaustive grid of real Enqueue calls in both generations, which also observes that rejections change neither buffer nor demand.',
          'ref': 'DESIGN.md 6 C14', 'note': _note, 'technique': 'Lean 4 proof (case analysis) + exhaustive differential grid'},
 }
